@@ -4,26 +4,6 @@ Open Scope list_scope.
 
 (* ------------------------------------------------------------------ the table *)
 
-Lemma row_ok_unguarded_read_only r :
-  row_ok r = true -> guard_F1 r = false -> read_only r = true.
-Proof.
-  unfold row_ok, guard_F1, read_only. intros Hok Hg.
-  apply forallb_forall. intros m Hm.
-  rewrite forallb_forall in Hok. specialize (Hok m Hm).
-  unfold meth_read_only. destruct (m_effects m) as [|e es] eqn:E; [reflexivity|exfalso].
-  assert (Hex : existsb (fun m => existsb eff_F1 (m_effects m)) (r_methods r) = true).
-  { apply existsb_exists. exists m. split; [exact Hm|]. rewrite E. simpl.
-    simpl in Hok. apply andb_true_iff in Hok as [He _]. rewrite He. reflexivity. }
-  congruence.
-Qed.
-
-Lemma read_only_row_ok r : read_only r = true -> row_ok r = true.
-Proof.
-  unfold read_only, row_ok. intros H. apply forallb_forall. intros m Hm.
-  rewrite forallb_forall in H. specialize (H m Hm). unfold meth_read_only in H.
-  destruct (m_effects m); [reflexivity|discriminate].
-Qed.
-
 Lemma read_only_no_write r name b :
   read_only r = true -> may_write r name = Some b -> b = false.
 Proof.
@@ -169,7 +149,7 @@ Section Inv.
       split; [|exists []; simpl; rewrite app_nil_r; reflexivity].
       constructor; simpl; auto.
       intros t Hin. apply in_app_or in Hin as [Hin|[<-|[]]]; [auto|]. simpl. split; [assumption|].
-      destruct (Hi i H) as (Hroi & _). rewrite (ro_writes _ _ _ Hroi H2) in H3.
+      destruct (Hi i H) as (Hroi & _). rewrite (ro_writes _ _ _ Hroi H1) in H2.
       eapply accesses_reads; eauto.
     - (* with_config starts *)
       split; [|exists []; simpl; rewrite app_nil_r; reflexivity].
@@ -248,10 +228,15 @@ End Inv.
 (* ------------------------------------------------------------------ the finding: a lazily
    initialising Execute races with itself and changes the shared prototype *)
 
+(** the row of [jwtAuthenticator] as harness/tools/effects extracted it at the pinned revision
+    (before fix: commit 13721c3), restricted to Execute / WithConfig *)
 Definition f1_row : mech_row :=
   mk_row "authenticators" "jwtAuthenticator" KAuthenticator []
-    [ mk_meth "Execute" [ mk_eff EStore "(*oauth2.MetadataEndpoint).init" "e.Endpoint.Method"
-                                 "internal/rules/mechanisms/oauth2/metadata_endpoint.go:35" ];
+    [ mk_meth "Execute" [
+        mk_eff EMapUpdate "(*oauth2.MetadataEndpoint).init" "e.Endpoint.Headers" "internal/rules/mechanisms/oauth2/metadata_endpoint.go:31";
+        mk_eff EStore "(*oauth2.MetadataEndpoint).init" "e.Endpoint.HTTPCache" "internal/rules/mechanisms/oauth2/metadata_endpoint.go:39";
+        mk_eff EStore "(*oauth2.MetadataEndpoint).init" "e.Endpoint.Headers" "internal/rules/mechanisms/oauth2/metadata_endpoint.go:27";
+        mk_eff EStore "(*oauth2.MetadataEndpoint).init" "e.Endpoint.Method" "internal/rules/mechanisms/oauth2/metadata_endpoint.go:35" ];
       mk_meth "WithConfig" [] ].
 
 Definition f1_proto : inst := {| i_row := 0; i_cells := [0]; i_origin := 0; i_ovrs := [] |}.
@@ -275,7 +260,7 @@ Lemma f1_call c : In f1_proto (c_insts c) ->
 Proof.
   intros H.
   apply (StCall [f1_row] c f1_proto "Execute" [(0, 1%Z)] [AWrite 0 1%Z]);
-    [exact H|reflexivity|apply f1_callable|apply f1_writes|apply f1_accesses].
+    [exact H|apply f1_callable|apply f1_writes|apply f1_accesses].
 Qed.
 
 Definition f1_c1 : config := {| c_store := [0%Z]; c_insts := [f1_proto]; c_thr := [f1_thread] |}.
@@ -300,16 +285,20 @@ Proof.
   apply (StAccess [f1_row] f1_c1 0 f1_thread (AWrite 0 1%Z) []); reflexivity.
 Qed.
 
-Lemma F1_refuted :
+(** every instance has a row in the table (its Go type is a known mechanism type) *)
+Definition has_row (tbl : list mech_row) (p : inst) : Prop := exists r, nth_error tbl (i_row p) = Some r.
+
+Lemma F1_pinned_refuted :
   exists tbl s0 cat,
-    catalogue_ok s0 cat /\ (forall r, In r tbl -> guard_F1 r = true) /\
+    catalogue_ok s0 cat /\ (forall p, In p cat -> has_row tbl p) /\ forallb row_ok tbl = false /\
     (exists c, steps tbl (init s0 cat) c /\ race c) /\
     (exists c p, steps tbl (init s0 cat) c /\ In p cat /\ view (c_store c) p <> view s0 p).
 Proof.
-  exists [f1_row], [0%Z], [f1_proto]. split; [|split; [|split]].
+  exists [f1_row], [0%Z], [f1_proto]. split; [|split; [|split; [|split]]].
   - intros [|[|k]] i E; simpl in E; try discriminate. inversion E; subst.
     repeat split; auto. intros c [<-|[]]. simpl. lia.
-  - intros r [<-|[]]. reflexivity.
+  - intros p [<-|[]]. exists f1_row. reflexivity.
+  - reflexivity.
   - exists f1_c2. split; [apply f1_steps2|].
     exists 0, 1, f1_thread, f1_thread, (AWrite 0 1%Z), [], (AWrite 0 1%Z), [].
     repeat split; auto.
@@ -324,24 +313,19 @@ Section Main.
   Variable tbl : list mech_row.
   Hypothesis Htbl : forallb row_ok tbl = true.
 
-  (** the instance's mechanism type is not one to which finding C17-F1 applies *)
-  Definition unguarded (p : inst) : Prop :=
-    exists r, nth_error tbl (i_row p) = Some r /\ guard_F1 r = false.
-
-  Lemma unguarded_ro p : unguarded p -> ro_inst tbl p.
+  Lemma has_row_ro p : has_row tbl p -> ro_inst tbl p.
   Proof.
-    intros (r & Hr & Hg). exists r. split; [exact Hr|].
-    apply row_ok_unguarded_read_only; [|exact Hg].
-    rewrite forallb_forall in Htbl. apply Htbl. eapply nth_error_In; eauto.
+    intros (r & Hr). exists r. split; [exact Hr|].
+    rewrite forallb_forall in Htbl. apply (Htbl r). eapply nth_error_In; eauto.
   Qed.
 
   Variable s0 : store.
   Variable cat : list inst.
   Hypothesis Hcat : catalogue_ok s0 cat.
-  Hypothesis Hun : forall p, In p cat -> unguarded p.
+  Hypothesis Hun : forall p, In p cat -> has_row tbl p.
 
   Lemma reach_inv c : steps tbl (init s0 cat) c -> Inv tbl s0 cat c.
-  Proof. apply inv_steps; [exact Hcat|]. intros p Hp. apply unguarded_ro. auto. Qed.
+  Proof. apply inv_steps; [exact Hcat|]. intros p Hp. apply has_row_ro. auto. Qed.
 
   Lemma steps_insts_grow c1 c2 : steps tbl c1 c2 -> exists more, c_insts c2 = c_insts c1 ++ more.
   Proof.
@@ -407,7 +391,7 @@ Definition nv_proto : inst := {| i_row := 0; i_cells := [0; 1]; i_origin := 0; i
 (** a variant overriding the second field is created while the prototype is being executed *)
 Example nonvacuous :
   forallb row_ok [nv_row] = true /\ catalogue_ok [10%Z; 20%Z] [nv_proto] /\
-  unguarded [nv_row] nv_proto /\
+  has_row [nv_row] nv_proto /\
   exists c v, steps [nv_row] (init [10%Z; 20%Z] [nv_proto]) c /\ In v (c_insts c) /\
     i_ovrs v = [[None; Some 99%Z]] /\ view (c_store c) v = [10%Z; 99%Z] /\
     view (c_store c) nv_proto = [10%Z; 20%Z] /\ c_thr c <> [].
@@ -415,7 +399,7 @@ Proof.
   split; [reflexivity|]. split.
   { intros [|[|k]] i E; simpl in E; try discriminate. inversion E; subst.
     repeat split; auto. intros c [<-|[<-|[]]]; simpl; lia. }
-  split. { exists nv_row. split; reflexivity. }
+  split. { exists nv_row. reflexivity. }
   set (c0 := init [10%Z; 20%Z] [nv_proto]).
   set (tw := {| t_inst := nv_proto; t_todo := []; t_fin := Some [None; Some 99%Z] |}).
   set (te := {| t_inst := nv_proto; t_todo := [ARead 0]; t_fin := None |}).
@@ -430,7 +414,6 @@ Proof.
   assert (S2 : step [nv_row] c1 c2).
   { apply (StCall [nv_row] c1 nv_proto "Execute" [] [ARead 0]).
     - left. reflexivity.
-    - reflexivity.
     - exists nv_row, false. split; reflexivity.
     - left. reflexivity.
     - intros a [<-|[]]. left. reflexivity. }
@@ -438,4 +421,89 @@ Proof.
   eexists. eexists. split.
   { eapply steps_step; [eapply steps_step; [eapply steps_step; [apply steps_refl|exact S1]|exact S2]|exact S3]. }
   simpl. split; [right; left; reflexivity|]. repeat split. discriminate.
+Qed.
+
+(* ------------------------------------------------------------------ the executable, sequential
+   semantics ([run_op], used by the correspondence evaluator) is a schedule of the interleaving
+   semantics: whatever is proved of every reachable configuration holds of every [run_ops] result *)
+
+Lemma remove_nth_last {A} (l : list A) x : remove_nth (length l) (l ++ [x]) = l.
+Proof. induction l; simpl; [reflexivity|f_equal; exact IHl]. Qed.
+
+Lemma nth_error_last {A} (l : list A) x : nth_error (l ++ [x]) (length l) = Some x.
+Proof. induction l; simpl; auto. Qed.
+
+Lemma may_write_callable tbl i r name b :
+  nth_error tbl (i_row i) = Some r -> may_write r name = Some b -> callable tbl i name.
+Proof. intros H1 H2. exists r, b. split; assumption. Qed.
+
+Lemma run_op_steps tbl s insts thr o s' insts' :
+  run_op tbl (s, insts) o = Some (s', insts') ->
+  steps tbl {| c_store := s; c_insts := insts; c_thr := thr |}
+            {| c_store := s'; c_insts := insts'; c_thr := thr |}.
+Proof.
+  unfold run_op. destruct o as [src ovr|k name].
+  - destruct (nth_error insts src) as [i|] eqn:Ei; [|discriminate].
+    destruct (nth_error tbl (i_row i)) as [r|] eqn:Er; [|discriminate].
+    destruct (may_write r "WithConfig") as [[|]|] eqn:Ew; try discriminate.
+    destruct (make_variant s i ovr) as [s2 v] eqn:Ev. intros E. inversion E; subst. clear E.
+    set (c0 := {| c_store := s; c_insts := insts; c_thr := thr |}).
+    set (t := {| t_inst := i; t_todo := []; t_fin := Some ovr |}).
+    eapply steps_step; [eapply steps_step; [apply steps_refl|]|].
+    + apply (StWith tbl c0 i ovr [] []).
+      * eapply nth_error_In; eauto.
+      * eapply may_write_callable; eauto.
+      * left. reflexivity.
+      * intros a [].
+    + pose proof (StVariant tbl {| c_store := s; c_insts := insts; c_thr := thr ++ [t] |} (length thr) t ovr
+                    (nth_error_last thr t) eq_refl eq_refl) as St.
+      simpl in St. rewrite remove_nth_last in St. rewrite Ev in St. simpl in St. exact St.
+  - destruct (nth_error insts k) as [i|] eqn:Ei; [|discriminate].
+    destruct (nth_error tbl (i_row i)) as [r|] eqn:Er; [|discriminate].
+    destruct (may_write r name) as [[|]|] eqn:Ew; try discriminate.
+    intros E. inversion E; subst. clear E.
+    set (c0 := {| c_store := s'; c_insts := insts'; c_thr := thr |}).
+    set (t := {| t_inst := i; t_todo := []; t_fin := None |}).
+    eapply steps_step; [eapply steps_step; [apply steps_refl|]|].
+    + apply (StCall tbl c0 i name [] []).
+      * eapply nth_error_In; eauto.
+      * eapply may_write_callable; eauto.
+      * left. reflexivity.
+      * intros a [].
+    + pose proof (StReturn tbl {| c_store := s'; c_insts := insts'; c_thr := thr ++ [t] |} (length thr) t
+                    (nth_error_last thr t) eq_refl eq_refl) as St.
+      simpl in St. rewrite remove_nth_last in St. exact St.
+Qed.
+
+Lemma steps_trans tbl c1 c2 c3 : steps tbl c1 c2 -> steps tbl c2 c3 -> steps tbl c1 c3.
+Proof. intros H1 H2. revert H1. induction H2; intros H1; [exact H1|]. eapply steps_step; [apply IHsteps; exact H1|eassumption]. Qed.
+
+Lemma run_ops_steps tbl os : forall s insts s' insts',
+  run_ops tbl (s, insts) os = Some (s', insts') ->
+  steps tbl {| c_store := s; c_insts := insts; c_thr := [] |}
+            {| c_store := s'; c_insts := insts'; c_thr := [] |}.
+Proof.
+  induction os as [|o r IH]; intros s insts s' insts' E; cbn [run_ops] in E.
+  - inversion E; subst. apply steps_refl.
+  - destruct (run_op tbl (s, insts) o) as [[s1 i1]|] eqn:E1; [|discriminate].
+    eapply steps_trans; [eapply run_op_steps; eauto|]. apply IH. exact E.
+Qed.
+
+(** sequential corollary, the form the correspondence evaluator uses: after any list of
+    operations every instance shows the catalogue configuration of its prototype overlaid with
+    its own overrides, and the part of the store that existed before is untouched *)
+Theorem run_ops_spec tbl (Htbl : forallb row_ok tbl = true) s0 cat os s insts :
+  catalogue_ok s0 cat -> (forall p, In p cat -> has_row tbl p) ->
+  run_ops tbl (s0, cat) os = Some (s, insts) ->
+  (exists ext, s = s0 ++ ext) /\
+  (exists more, insts = cat ++ more) /\
+  forall i, In i insts -> spec_view s0 cat i = Some (view s i).
+Proof.
+  intros Hcat Hrow E. apply run_ops_steps in E.
+  change {| c_store := s0; c_insts := cat; c_thr := [] |} with (init s0 cat) in E.
+  split; [|split].
+  - destruct (store_unchanged tbl Htbl s0 cat Hcat Hrow _ _ (steps_refl tbl (init s0 cat)) E) as ((ext & Hx) & _).
+    exists ext. exact Hx.
+  - destruct (steps_insts_grow tbl _ _ E) as (m & Hm). exists m. exact Hm.
+  - intros i Hi. apply (overrides_local tbl Htbl s0 cat Hcat Hrow _ i E Hi).
 Qed.
